@@ -72,7 +72,11 @@ class C10(Check):
                'vectorize': (stratum == 'S-edges-vec') or (stratum not in ('S-edges',) and rng.random() < 0.4),
                'adaptive_func': True if edges_mode else rng.random() < 0.5,
                'probes': [[rng.uniform(0.0, 2.0), rng.randint(0, 50)] for _ in range(6)],
-               'hist_capacity': rng.choice([1, 2, 3, 8, 1024])}
+               'hist_capacity': rng.choice([1, 2, 3, 8, 1024]),
+               # solve_ivp-style keywords a user may pass along with solver='scipy' (they must not change which driver
+               # integrates a delayed model)
+               'run_kw': rng.choice([{}, {}, {'method': 'RK45'}, {'method': 'RK23'}, {'method': 'DOP853'},
+                                     {'method': 'RK45', 'rtol': 1e-6}])}
         if stratum == 'S-edges':
             cfg['vectorize'] = False
         return {'spec': spec, 'cfg': cfg}
@@ -232,7 +236,8 @@ class C10(Check):
         outputs = {f'o{i}': n for i, n in enumerate(names)}
         try:
             R = c.run(T, dt, outputs=outputs, solver=cfg['solver'], vectorize=cfg['vectorize'], float_precision='float64',
-                      decorator=rec, verbose=False, backend=cfg.get('backend', 'default'))
+                      decorator=rec, verbose=False, backend=cfg.get('backend', 'default'),
+                      **(cfg.get('run_kw', {}) if cfg['solver'] == 'scipy' else {}))
         except Exception as e:
             if not rec.events:
                 res['discard'] = f'model refused: {type(e).__name__}: {str(e)[:80]}'
